@@ -74,14 +74,14 @@ theorem chunk_ret_good (s : KSrc) (cv n : Nat) (kk : Take) :
   simp [rangeList, takeCount, Nat.add_comm, Nat.add_left_comm]
 
 /-- for consumers that only use `next()` the offset is 0: the line satisfies `EvGood` as it stands -/
-theorem chunk_ret_good_next (s : KSrc) (cv n : Nat) (kk : Take) (hk : ∀ k, kk ≠ .nth k) :
+theorem chunk_ret_good_next (s : KSrc) (cv n : Nat) (kk : Take) (hk : ∀ k, kk ≠ .nth k) (hc : kk ≠ .cnt) :
     EvGood s (.ret (.chunk (pullRange s.len cv n).1 ((pullRange s.len cv n).2 - (pullRange s.len cv n).1)
       ((pullRange s.len cv n).2 - (pullRange s.len cv n).1 - takeCount kk ((pullRange s.len cv n).2 - (pullRange s.len cv n).1))
       ((rangeList ((pullRange s.len cv n).1 + kk.skipped ((pullRange s.len cv n).2 - (pullRange s.len cv n).1))
         ((pullRange s.len cv n).1 + takeCount kk ((pullRange s.len cv n).2 - (pullRange s.len cv n).1))).map s.valAt))) := by
   have h := chunk_ret_good s cv n kk
   have h0 : kk.skipped ((pullRange s.len cv n).2 - (pullRange s.len cv n).1) = 0 := by
-    cases kk <;> simp [Take.skipped] <;> exact absurd rfl (hk _)
+    cases kk <;> simp [Take.skipped] <;> first | exact absurd rfl (hk _) | exact absurd rfl hc
   rw [h0] at h ⊢
   simpa [ChunkGood, EvGood] using h
 
